@@ -10,6 +10,8 @@
 //   * pthread_mutex_trylock  = schedule point "sched.mutex_trylock" (std::try_to_lock); fails iff held
 //   * pthread_cond_wait      = atomically {enter the waiting set, release the mutex}; schedule point "sched.cond_wait";
 //                              runnable again once signalled (and the mutex is free); never really sleeps in the kernel
+//     a scheduler may also resume an UNSIGNALLED waiter whose mutex is free: a spurious wake-up (legal for condition
+//     variables); drive_all offers that choice while G.spuriousLeft > 0, run_guided for steps marked with '!'
 //   * pthread_cond_signal    = wakes the longest waiting controlled waiter (or a chosen one, see `pickWaiter`);
 //     pthread_cond_broadcast = wakes all
 //   * pthread_create         = the new thread is ADOPTED by the controller (logical ids 100, 101, ... in creation order)
@@ -52,11 +54,15 @@ struct Global {
   std::function<void(int child, int by)> onJoin;
   std::function<size_t(size_t n)> pickWaiter;              // which of n waiters cond_signal wakes (default: 0)
   long created = 0, joined = 0;
+  int spuriousLeft = 0;                                    // controller choice: how many more times a thread blocked in
+  long spuriousTaken = 0;                                  // cond_wait WITHOUT a signal may be resumed (spurious wake-up)
+  int spuriousPermille = 60;                               // random mode: chance per step to consider such a resume
   sem_t adoptSem;                                          // handshake parent <- adopted child (NOT Ctl::back: the
                                                            // controller is waiting on that one while the parent runs)
   Global() { sem_init(&adoptSem, 0, 0); }
   void reset() {
     ts.clear(); owner.clear(); waiters.clear(); byPthread.clear(); nextId = 100; created = joined = 0;
+    spuriousLeft = 0;
     adoptFromMain = false;
   }
 };
@@ -111,22 +117,47 @@ inline std::vector<int> enabled_set(vrt::Ctl& c) {
   return v;
 }
 
+// threads that could be woken spuriously: parked in cond_wait, not signalled, their mutex free
+inline bool spurious_candidate(vrt::Ctl& c, int id) {
+  auto it = G.ts.find(id);
+  if (it == G.ts.end() || !c.enabled(id)) return false;
+  const TS& s = it->second;
+  if (!s.waitingOn || s.signalled) return false;
+  if (s.wantMutex) { auto o = G.owner.find(s.wantMutex); if (o != G.owner.end() && o->second != id) return false; }
+  return true;
+}
+inline std::vector<int> spurious_set(vrt::Ctl& c) {
+  std::vector<int> v;
+  if (G.spuriousLeft <= 0) return v;
+  for (auto& [id, u] : c.thr) if (spurious_candidate(c, id)) v.push_back(id);
+  return v;
+}
+inline void note_step(vrt::Ctl& c, int t) {          // call before c.step(t)
+  if (blocked(c, t) && spurious_candidate(c, t)) { --G.spuriousLeft; ++G.spuriousTaken; }
+}
+
 // ---- schedule drivers that honour the seam's blocking predicate (same shape as vrt::run_*)
+// Deadlock = no thread is really runnable; a possible spurious wake-up never counts as progress.
 template <class Choose>
 vrt::RunResult drive_all(vrt::Ctl& c, Choose&& choose, long maxSteps = 200000) {
   vrt::RunResult r; int last = -1;
   while ((long)r.steps.size() < maxSteps) {
     auto en = enabled_set(c);
     if (en.empty()) break;
-    int t = choose(en, last);
+    size_t nreal = en.size();
+    for (int x : spurious_set(c)) en.push_back(x);
+    int t = choose(en, last, nreal);
     r.steps.push_back({t, c.site(t)});
+    note_step(c, t);
     c.step(t); last = t;
   }
   r.deadlock = !c.all_finished();
   return r;
 }
 inline vrt::RunResult run_random(vrt::Ctl& c, std::mt19937& rng, int stickiness = 50) {
-  return drive_all(c, [&](const std::vector<int>& en, int last) {
+  return drive_all(c, [&](const std::vector<int>& en0, int last, size_t nreal) {
+    std::vector<int> en(en0.begin(), en0.begin() + (long)nreal);
+    if (en0.size() > nreal && (int)(rng() % 1000) < G.spuriousPermille) return en0[nreal + rng() % (en0.size() - nreal)];
     if (last >= 0 && (int)(rng() % 100) < stickiness)
       for (int t : en) if (t == last) return t;
     return en[rng() % en.size()];
@@ -134,25 +165,41 @@ inline vrt::RunResult run_random(vrt::Ctl& c, std::mt19937& rng, int stickiness 
 }
 inline vrt::RunResult run_dfs(vrt::Ctl& c, vrt::Dfs& d) {
   d.begin();
-  return drive_all(c, [&](const std::vector<int>& en, int last) {
+  return drive_all(c, [&](const std::vector<int>& en, int last, size_t) {
     bool le = false; for (int t : en) if (t == last) le = true;
     return d.pick(en, le);
   });
 }
+// mapId translates the specification's thread identities into controller ids (e.g. "thread of item i");
+// a step whose expected site ends in '!' is a spurious wake-up: the thread is resumed although it is not signalled.
 inline vrt::RunResult run_guided(vrt::Ctl& c, const std::vector<vrt::StepRec>& sched,
-                                 const std::function<bool(const std::string&, const std::string&)>& same) {
+                                 const std::function<bool(const std::string&, const std::string&)>& same,
+                                 const std::function<int(int)>& mapId = nullptr) {
   vrt::RunResult r;
-  for (auto& s : sched) {
-    if (!c.thr.count(s.t)) { ++r.unguided; continue; }
+  for (auto& s0 : sched) {
+    vrt::StepRec s = s0;
+    if (mapId) s.t = mapId(s.t);
+    bool spur = !s.site.empty() && s.site.back() == '!';
+    if (spur) s.site.pop_back();
+    if (!c.thr.count(s.t)) {
+      if (!r.drift) r.firstDrift = "thread " + std::to_string(s0.t) + " does not exist (expected at '" + s.site + "')";
+      ++r.drift; ++r.unguided; continue;
+    }
     std::string got = c.site(s.t);
     if (!same(s.site, got)) {
       if (!r.drift) r.firstDrift = "thread " + std::to_string(s.t) + " at '" + got + "' expected '" + s.site + "'";
       ++r.drift;
     }
     r.steps.push_back({s.t, got});
-    if (!c.enabled(s.t) || blocked(c, s.t) || !c.step(s.t)) ++r.unguided;
+    bool blk = blocked(c, s.t) && !(spur && spurious_candidate(c, s.t));
+    if (!c.enabled(s.t) || blk) {
+      if (!r.drift) r.firstDrift = "thread " + std::to_string(s.t) + " not runnable at '" + got + "' (expected step '" + s.site + "')";
+      ++r.drift; ++r.unguided; continue;
+    }
+    if (spur) ++G.spuriousTaken;
+    if (!c.step(s.t)) ++r.unguided;
   }
-  auto rest = drive_all(c, [&](const std::vector<int>& en, int) { return en[0]; });
+  auto rest = drive_all(c, [&](const std::vector<int>& en, int, size_t) { return en[0]; });
   r.unguided += (long)rest.steps.size();
   for (auto& s : rest.steps) r.steps.push_back(s);
   r.deadlock = rest.deadlock;
@@ -161,10 +208,13 @@ inline vrt::RunResult run_guided(vrt::Ctl& c, const std::vector<vrt::StepRec>& s
 // replay of a recorded schedule (list of thread ids)
 inline vrt::RunResult run_schedule(vrt::Ctl& c, const std::vector<int>& sched) {
   size_t k = 0;
-  return drive_all(c, [&](const std::vector<int>& en, int) {
+  int save = G.spuriousLeft; G.spuriousLeft = 1 << 20;   // a recorded schedule may contain spurious wake-ups
+  auto r = drive_all(c, [&](const std::vector<int>& en, int, size_t) {
     if (k < sched.size()) { int t = sched[k++]; for (int e : en) if (e == t) return t; }
     return en[0];
   });
+  G.spuriousLeft = save;
+  return r;
 }
 
 inline void acquire_after_park(pthread_mutex_t* m) {
